@@ -260,6 +260,7 @@ def check_impl_list(c, rep):
             kv.get("via_trait"), kv.get("direct"), m["list"]))
         return
     rep.bump("impl_block_methods_checked")
+    rep.count(c.id, True)
 
 
 def build_cases(lists, label, variants, fn_name=FN):
@@ -286,6 +287,8 @@ def run(tier, seed):
     rep = core.Report(PROP, tier, seed)
     rep.rule = ("all parameter pattern lists of length <= L over the alphabet %s (a binding name occurs at most once per list), "
                 "each as fn with deps and as no_deps fn (thorough: also async and module mode); sampled lists of length L+1. "
+                "the lists of length <= 2 plus sampled longer ones (alphabet + `__impl`, `N(__impl)`, `__impl_`) also as parameters of a fn in an "
+                "entraited impl block, static and dynamic selection (names of the generated target-trait method distinct, compiles, trait call = direct call). "
                 "Checked: naming rules on the recorded trait method, the case compiles, C01 differential oracle at run time. "
                 "non-trivial = list contains a non-plain pattern or a colliding name" % sorted(ALPHABET))
     syms = sorted(ALPHABET)
